@@ -15,6 +15,14 @@ CLAIMED = {
             'explored paths; sessions add the path-model monitor.',
             'floats modelled as reals; at most 3 (quick) / 4 (thorough) orders per minute in the kernel harness; z3 is trusted',
             TECH),
+    'C02': ('DESIGN.md C02',
+            'Bounded solver-based check: the real research.backtest (step and fast simulator, Strategy, Broker, Order, Position, '
+            'exchanges, candle store) runs on symbolic one-minute candles and symbolic order prices; per explored path the '
+            'recorded fills are checked against the continuous-path model by z3 (own price/qty, earliest hit first, nothing '
+            'reachable left active, no fill before submit/after cancel, market orders flushed at the current price).',
+            'floats as reals; templates T1..T4,T8; 2-3 symbolic candles; concrete quantities, fee, leverage; numpy shim / '
+            'Decimal helpers as exact +,- ; MARKET fill accepted within the 0.015% routing threshold of the current price',
+            TECH),
 }
 
 NOT_YET = {}
